@@ -100,7 +100,7 @@ GhostInit == [q2in |-> <<>>, unacked |-> <<>>, txed |-> <<>>, ackd |-> <<>>, pub
               seen |-> {}, connacks |-> <<>>, discd |-> {}, rm |-> <<>>, tam |-> <<>>, mps |-> <<>>,
               will |-> <<>>, pendw |-> <<>>, nowill |-> {}, willsent |-> {}, aliasOut |-> <<>>, aliasIn |-> <<>>,
               expm |-> <<>>, deadR |-> {}, deadI |-> {}, dsdel |-> <<>>, resentOn |-> {},
-              sdr |-> {}, rdr |-> {}, clob |-> <<>>, wipedw |-> {}, rpi |-> <<>>]
+              sdr |-> {}, rdr |-> {}, clob |-> <<>>, wipedw |-> {}, rpi |-> <<>>, subG |-> <<>>]
 
 (* ================================================================== publications of a step *)
 Qos2Open(c, pid) == pid \in Get(g.q2in, c, {})
@@ -295,7 +295,7 @@ J_C05(i) ==
       LET f == e.a.filters[1]
           acks == SelectSeq(OutOf(e, e.k), LAMBDA q : q.t = SUBACK)
           granted == Len(acks) = 1 /\ Len(acks[1].codes) = 1 /\ acks[1].codes[1] < 128
-          existed == \E s \in SubsOf(pre, e.c) : s.fs = JoinL(f.f)
+          existed == JoinL(f.f) \in Get(g.subG, e.c, {})      \* from the protocol history, not from the broker's index
           want == IF granted /\ ReplayWanted(IF IsSharedF(f.f) THEN "shared" ELSE "client", IF e.v = 5 THEN f.rh ELSE 0, existed)
                   THEN {r.m : r \in {x \in RetainedSet(pre) : Matches(f.f, x.t) /\ CanRead(e.c, x.ts)}} ELSE {}
           reps == SelectSeq(OutOf(e, e.k), LAMBDA q : q.t = PUBLISH /\ q.ret)
@@ -479,6 +479,15 @@ DeferredDeleted(i, c) ==
     {r \in InflightOf(Pre(i), c) : r.t = PUBLISH /\ r.expiry < 0 /\ ~(\E r2 \in InflightOf(e.st, c) : r2.pid = r.pid)
                                     /\ (\E q \in ToSet(PktsTo(e, c)) : q.t = PUBLISH /\ q.pid = r.pid /\ q.m = r.m)}
 
+(* ... and the variant where that write failed because the connection ended in the same step (the    *)
+(* client closed it right after its acknowledgement): the record is deleted all the same, the         *)
+(* message was never transmitted and is lost (same call site, same recorded finding)                  *)
+DeferredLost(i, c) ==
+    LET e == Trace[i] IN
+    IF ~(e.c = c /\ e.err = "" /\ e.ev \in {"puback", "pubrec", "pubcomp"} /\ ClosedInStep(e)) THEN {} ELSE
+    {r \in InflightOf(Pre(i), c) : r.t = PUBLISH /\ r.expiry < 0 /\ ~(\E r2 \in InflightOf(e.st, c) : r2.pid = r.pid)
+                                    /\ ~(\E q \in ToSet(PktsTo(e, c)) : q.t = PUBLISH /\ q.pid = r.pid)}
+
 GhostNextOf(i) ==
     LET e == Trace[i] IN
     IF e.ev = "Config" THEN GhostInit ELSE
@@ -490,7 +499,12 @@ GhostNextOf(i) ==
         afterOp(c0) ==
             LET U == Get(g.unacked, c0, {}) IN
             IF SessionEndsIn(i, c0) /\ ~(e.ev = "connect" /\ e.c = c0 /\ ConnackSP(e)) THEN {}
-            ELSE {r \in U : ~((ackNow(c0) \/ recFail(c0)) /\ r.pid = e.pid) /\ ~DroppedNow(e, c0, r.pid)}
+            ELSE LET V == {r \in U : ~((ackNow(c0) \/ recFail(c0)) /\ r.pid = e.pid) /\ ~DroppedNow(e, c0, r.pid)} IN
+                 \* a PUBREC the broker has read moves the exchange on, also when the PUBREL that answers it could not be
+                 \* written any more (the client closed the connection right after the PUBREC: op with drop)
+                 IF ok /\ e.c = c0 /\ e.ev = "pubrec" /\ e.a.rc < 128
+                   THEN {IF r.pid = e.pid /\ r.qos = 2 THEN [r EXCEPT !.phase = "rel"] ELSE r : r \in V}
+                   ELSE V
         unackedN == [c0 \in ids |-> ApplyConns(afterOp(c0), e, 1, c0)]
         ackdN == [c0 \in ids |-> Get(g.ackd, c0, {}) \cup
                      (IF ackNow(c0) THEN {r.m : r \in {x \in Get(g.unacked, c0, {}) : x.pid = e.pid}} ELSE {})]
@@ -560,9 +574,19 @@ GhostNextOf(i) ==
                                    THEN {k \in DOMAIN g.will : \E h \in Hooks(e) : h.h = "will_sent" /\ h.c = g.will[k].c /\ h.m # g.will[k].m}
                                    ELSE {}),
         rpi |-> IF isConn THEN Put(g.rpi, e.k, IF e.a.v = 5 THEN e.a.rpi ELSE -1) ELSE g.rpi,
+        \* the filters the CURRENT session of a client holds according to the protocol history (granted SUBSCRIBEs minus
+        \* UNSUBSCRIBEs since the session began) - deliberately not read from the broker's topic index
+        subG |-> [c0 \in ids |->
+                    LET base == IF SessionEndsIn(i, c0) THEN {} ELSE Get(g.subG, c0, {})
+                        sa == SelectSeq(OutOf(e, e.k), LAMBDA q : q.t = SUBACK) IN
+                    IF ok /\ e.c = c0 /\ e.ev = "subscribe" /\ Len(sa) = 1 /\ Len(sa[1].codes) = Len(e.a.filters)
+                      THEN base \cup {JoinL(e.a.filters[n].f) : n \in {m \in 1..Len(e.a.filters) : sa[1].codes[m] < 128}}
+                    ELSE IF ok /\ e.c = c0 /\ e.ev = "unsubscribe"
+                      THEN base \ {JoinL(e.a.filters[n].f) : n \in 1..Len(e.a.filters)}
+                    ELSE base],
         rdr |-> g.rdr \cup (IF ok /\ e.ev = "pubrec" /\ e.a.rc < 128 THEN {e.k} ELSE {}),
         resentOn |-> g.resentOn \cup (IF isConn /\ (\E q \in ToSet(OutOf(e, e.k)) : q.t \in {PUBLISH, PUBREL}) THEN {e.k} ELSE {}),
-        dsdel |-> [c0 \in ids |-> IF SessionEndsIn(i, c0) THEN {} ELSE Get(g.dsdel, c0, {}) \cup {r.pid : r \in DeferredDeleted(i, c0)}],
+        dsdel |-> [c0 \in ids |-> IF SessionEndsIn(i, c0) THEN {} ELSE Get(g.dsdel, c0, {}) \cup {r.pid : r \in DeferredDeleted(i, c0) \cup DeferredLost(i, c0)}],
         deadR |-> g.deadR \cup (IF e.ev = "tick" /\ e.a.kind = "retained" THEN {m \in DOMAIN g.expm : g.expm[m] > 0 /\ g.expm[m] < e.tick} ELSE {}),
         deadI |-> g.deadI \cup (IF e.ev = "tick" /\ e.a.kind = "inflight" THEN {m \in DOMAIN g.expm : g.expm[m] > 0 /\ g.expm[m] < e.tick} ELSE {})]
 
@@ -670,6 +694,8 @@ J_C09(i) ==
           ELSE IF e.c = c /\ e.ev = "publish" /\ e.a.qos > 0 /\ e.a.pid = r.pid THEN <<>>     \* C10's rule reports this one
           ELSE IF r \in DeferredDeleted(i, c)
                THEN Cmp("C09.record-deleted-by-deferred-send", c, r.m, r.pid)
+          ELSE IF r \in DeferredLost(i, c)
+               THEN Cmp("C09.deferred-record-lost-on-failed-send", c, r.m, r.pid)
           ELSE Cmp("C09.record-vanished", c, r.m, r.pid))),
       \* (2) resuming a session redelivers everything unacknowledged: same id, DUP, PUBREL after PUBREC
       IF e.ev = "connect" /\ e.err = "" /\ ConnackSP(e) THEN
